@@ -490,13 +490,13 @@ const MIRI_BUDGET: usize = 1 << 20;
 #[cfg(miri)]
 unsafe impl GlobalAlloc for SimAlloc {
     unsafe fn alloc(&self, layout: Layout) -> *mut u8 {
-        if should_fail() || (tracking() && layout.size() > MIRI_BUDGET) {
+        if should_fail() || (dashu_int::verif::in_fallible_site() && layout.size() > MIRI_BUDGET) {
             return std::ptr::null_mut();
         }
         System.alloc(layout)
     }
     unsafe fn alloc_zeroed(&self, layout: Layout) -> *mut u8 {
-        if should_fail() || (tracking() && layout.size() > MIRI_BUDGET) {
+        if should_fail() || (dashu_int::verif::in_fallible_site() && layout.size() > MIRI_BUDGET) {
             return std::ptr::null_mut();
         }
         System.alloc_zeroed(layout)
@@ -505,7 +505,7 @@ unsafe impl GlobalAlloc for SimAlloc {
         System.dealloc(ptr, layout)
     }
     unsafe fn realloc(&self, ptr: *mut u8, layout: Layout, new_size: usize) -> *mut u8 {
-        if should_fail() || (tracking() && new_size > MIRI_BUDGET) {
+        if should_fail() || (dashu_int::verif::in_fallible_site() && new_size > MIRI_BUDGET) {
             return std::ptr::null_mut();
         }
         System.realloc(ptr, layout, new_size)
